@@ -45,6 +45,8 @@ def old_style(u):
 
 def twins(u):
     t = [("pickle", pickle.loads(pickle.dumps(u)))]
+    # protocols 0 and 1 rebuild the object through copyreg._reconstructor (object.__new__, not URL.__new__): always observed in full
+    t += [("pickle-proto0", pickle.loads(pickle.dumps(u, protocol=0))), ("pickle-proto1", pickle.loads(pickle.dumps(u, protocol=1)))]
     if not QUICK[0]:
         t += [("copy", copy.copy(u)), ("deepcopy", copy.deepcopy(u)), ("pickle-proto2", pickle.loads(pickle.dumps(u, protocol=2))),
               ("old-style pickle state", old_style(u))]
@@ -81,7 +83,36 @@ def compare(acc, case, args, u):
                          msg="%s%r: %s is %r in a full observation but %r when it is the first thing read on a fresh twin" % (
                              case, tuple(args)[:3], name, o[idx][1], alone))
                 return False
-    for kind, t in twins(u) + [("pickle, accessors read in reverse order", pickle.loads(pickle.dumps(u)))]:
+    try:
+        tw = twins(u) + [("pickle, accessors read in reverse order", pickle.loads(pickle.dumps(u)))]
+    except Exception as e:  # noqa: BLE001
+        acc.viol(case, args, observed={"twin": "creation", "error": repr(e)}, expected="twins can be made",
+                 msg="%s%r: making a pickle/copy twin raised %r" % (case, tuple(args)[:3], e))
+        return False
+    for kind, t in tw:
+        # the original has been observed (its hash is cached), the twin is untouched: equality must already hold, in both directions
+        try:
+            early = [] if (u == t and t == u and not (u != t)) else ["observed original == untouched twin is False"]
+        except Exception as e:  # noqa: BLE001
+            early = ["comparing with the untouched twin raised %r" % (e,)]
+        if early:
+            acc.viol(case, args, observed={"twin": kind, "diff": [], "str": o[0:1]}, expected="identical observations",
+                     msg="%s%r vs its %s twin: %s" % (case, tuple(args)[:3], kind, early[0]))
+            return False
+        if QUICK[0] and kind in ("pickle-proto0", "pickle-proto1"):
+            # quick tier: the object must be usable and carry the same state (the full observation is the default-protocol twin's)
+            try:
+                light = (str(t), hash(t), t.raw_host, t.path, t.query_string) == (str(u), hash(u), u.raw_host, u.path, u.query_string)
+                why = "str/hash/raw_host/path/query_string differ"
+            except (ValueError, TypeError):
+                light, why = True, ""
+            except Exception as e:  # noqa: BLE001
+                light, why = False, "using the twin raised %r" % (e,)
+            if not light or tuple(t.__getstate__()[0]) != tuple(u.__getstate__()[0]):
+                acc.viol(case, args, observed={"twin": kind, "diff": [], "str": o[0:1]}, expected="identical observations",
+                         msg="%s%r vs its %s twin: %s" % (case, tuple(args)[:3], kind, why or "stored state differs"))
+                return False
+            continue
         ot = observe(t, reverse=kind.endswith("reverse order"))
         d = diff(o, ot)
         probs = []
